@@ -675,3 +675,60 @@ package rewriter
 //@   ensures[other] !(isa(cursorNode(c), ForStmt) || isa(cursorNode(c), RangeStmt) || isa(cursorNode(c), SwitchStmt) || isa(cursorNode(c), TypeSwitchStmt) || isa(cursorNode(c), SelectStmt) || isa(cursorNode(c), FuncLit))
 //@        ==> SLen(loopStack) == old(SLen(loopStack)) && SLen(switchStack) == old(SLen(switchStack)) && SLen(funcLitStack) == old(SLen(funcLitStack))
 //@   modifies cell(loopStack), cell(switchStack), cell(funcLitStack), AST
+
+// ---------------------------------------------------------------- optimize.go: eta reduction side conditions (C07, C13)
+// func(params) { return f(args) } may be replaced by f only if the arguments are the parameters, in order, and f is a
+// declared function or method of the very same type (not a variable, builtin or conversion).
+
+//@ extern (*matcher.MatchCtx).ObjectOf(ctx, id) (o)
+//@   ensures o == objectOf(id)
+//@ extern (*matcher.MatchCtx).Callee(ctx, call) (o)
+//@   ensures o == calleeOf(call)
+//@ extern (*matcher.MatchCtx).TypeOf(ctx, e) (t)
+//@   ensures t == typeOfExpr(e)
+//@ pred EtaShape(lit *ast.FuncLit) := lit != nil && lit.Body != nil && len(lit.Body.List) == 1 && isa(lit.Body.List[0], ReturnStmt) && !isnil(lit.Body.List[0])
+//@        && len(as(lit.Body.List[0], ReturnStmt).Results) == 1 && isa(as(lit.Body.List[0], ReturnStmt).Results[0], CallExpr)
+//@        && !isnil(as(lit.Body.List[0], ReturnStmt).Results[0])
+
+//@ closure optimizer.etaReduction#0 (ctx, paramsFields, argsExprs) (ok)
+//@   loop #3 invariant forall j: Int :: 0 <= j && j < _idx ==> args[j].Name == params[j].Name && objectOf(args[j]) == objectOf(params[j])
+//@   ensures[local:positional] ok ==> len(args) == len(params) && (forall j: Int :: 0 <= j && j < len(args) ==> args[j].Name == params[j].Name && objectOf(args[j]) == objectOf(params[j]))
+
+//@ func stableCallee(ctx, lit) (ok)
+//@   requires EtaShape(lit)      -- guaranteed by the matcher pattern the callback is registered for (assumed contract of go-matcher)
+//@   ensures[declared-func] ok ==> IsDeclaredFunc(calleeOf(as(as(lit.Body.List[0], ReturnStmt).Results[0], CallExpr)))
+//@   -- D6 (method value): f in `func() T { return s.m() }` -> `s.m` binds the receiver when the closure is created, not when it is called
+//@   ensures[stable-receiver] ok ==> !BindsReceiverEarly(as(as(lit.Body.List[0], ReturnStmt).Results[0], CallExpr).Fun)
+//@   ensures[same-type] ok ==> TypesIdentical(typeOfExpr(lit), typeOfExpr(as(as(lit.Body.List[0], ReturnStmt).Results[0], CallExpr).Fun))
+
+//@ extern types.Identical(a, b) (r)
+//@   ensures r == TypesIdentical(a, b)
+
+// ---------------------------------------------------------------- the whole body sits inside Start(Delay(thunk)) (C02, C14)
+
+//@ func (r *yieldRewriter) rewriteReturnAndForSwitchInitStmtInYieldFun(body)
+//@   trusted      -- pass 0: one astutil.Apply traversal (external); hoists := initialisers, rewrites returns
+//@   requires body != nil
+//@   ensures StmtList(body.List)
+//@   modifies AST
+//@ func (r *yieldRewriter) rewriteRanges(block)
+//@   trusted      -- pass 1: one astutil.Apply traversal (external); replaces range statements by iterator loops built with rewriteRangeToForIter
+//@   requires block != nil
+//@   ensures StmtList(block.List)
+//@   modifies AST
+//@ func (r *yieldRewriter) rewriteBreakContinues(body)
+//@   trusted      -- pass 3 driver: one astutil.Apply traversal (external) over the callbacks verified above
+//@   requires body != nil
+//@   ensures true
+//@   modifies AST
+
+//@ func (r *yieldRewriter) rewriteYieldFuncBody()
+//@   reveal wf-ast
+//@   requires YRCtx(r) && r.funcBody != nil
+//@   ensures[single-return] len(r.funcBody.List) == 1 && isa(r.funcBody.List[0], ReturnStmt) && !isnil(r.funcBody.List[0])
+//@        && len(as(r.funcBody.List[0], ReturnStmt).Results) == 1 && isa(as(r.funcBody.List[0], ReturnStmt).Results[0], CallExpr)
+//@        && IsSeqCall(as(as(r.funcBody.List[0], ReturnStmt).Results[0], CallExpr), cstStart)
+//@        && len(as(as(r.funcBody.List[0], ReturnStmt).Results[0], CallExpr).Args) == 1
+//@   ensures[local:body-in-thunk] IsDelayOf(as(as(r.funcBody.List[0], ReturnStmt).Results[0], CallExpr).Args[0], following.block)
+//@   ensures[local:thunk-closed] EndsOK(following)
+//@   modifies r.funcBody.List, AST
